@@ -181,7 +181,16 @@ def check(model, rep):
             rep.violation(rule, f'DCMotor.{meth}[exit@{o.loc}]', f'a path through the method {why} '
                           f'without storing exactly one result', f'{m.module}:{o.loc}',
                           path_guards=[g.show(ctx)[:100] for g in o.state.guards])
-        cases = [(name, spec.guards(g), spec.value(t)) for name, g, t in table]
+        cases = []
+        for name, g, t in table:
+            try:
+                cases.append((name, spec.guards(g), spec.value(t)))
+            except Exception as e:
+                if '(0 ways)' not in str(e):
+                    raise
+                # the case's condition contradicts what the constructor guarantees (e.g. i0 = 0 after a constructor
+                # that demands i0 > 0): nothing to match; whether the constructor may demand that is C19's boundary rule
+                rep.note(rule, f'DCMotor.{meth}[{name}]', 'specified case is excluded by the constructor\'s own validation', m.loc)
         match_cases(rep, rule, f'DCMotor.{meth}', m.loc, paths, cases, ctx, show)
         # unit soundness: no symbolic unit factor survives in a stored SI magnitude
         for pg, pv, ln in paths:
